@@ -59,6 +59,7 @@ MAP = [  # subject substring -> properties whose quick check must catch the reve
     ('MatrixPseudoinversion formed U S^-1', ['C12']),
     ('setStr/getStr had no range check', ['C14']),
     ('GenIdentityMatrix only wrote the diagonal', ['C14']),
+    ('PCA started a component from rounding residue', ['C18']),
 ]
 
 
